@@ -205,6 +205,9 @@ def common_obligations(ctx, repo, pid):
         # FWDCOLLIDE rule: lazily created attributes of a class with a forwarding __getattr__ must not collide with the delegate's
         from .rules.params import check_forward_collisions
         check_forward_collisions(ctx, repo, pid, scope, report_modules=mods)
+        # LAZYINIT rule: an attribute created on first use by one method must not be dereferenced by a sibling that does not create it
+        from .rules.params import check_lazy_attrs
+        check_lazy_attrs(ctx, repo, pid, scope, report_modules=mods)
 
 
 def run_sentinels(ctx: Ctx, pid: str):
